@@ -12,6 +12,7 @@ import (
 
 	"github.com/dadrus/heimdall/internal/config"
 	rconfig "github.com/dadrus/heimdall/internal/rules/config"
+	"github.com/dadrus/heimdall/internal/verif/vkit/app"
 	"github.com/dadrus/heimdall/internal/verif/vkit/core"
 )
 
@@ -201,6 +202,7 @@ func TestC08(t *testing.T) {
 	}
 	close(ch)
 	wg.Wait()
+	c08Forwarded(r, tr)
 	r.Require("respelled_requests", r.Counter("respelled"), 500)
 	r.Require("encoded_slash_requests", r.Counter("encoded_slash"), 300)
 	r.Require("positive_canonical", r.Counter("canonical_positive"), 30)
@@ -380,6 +382,60 @@ func c08JudgeSlash(r *core.Run, tr *trio, ep, base, sp, hex string, nEnc int, ob
 		if ep == "proxy" && strings.Contains(strings.ToUpper(obs.UpPath), "%2F") {
 			cs.Expected = "upstream path shows '/'"
 			r.Violation("on-upstream-path-not-decoded:"+hex[1:]+":"+ep, fmt.Sprintf("%s: %q was forwarded as %q", ep, sp, obs.UpPath), cs)
+		}
+	}
+}
+
+// c08Forwarded: the same paths reach the decision service the way a proxy in front of it hands them over - in the
+// X-Forwarded-Uri header of a trusted peer. The answer must be the one given to the same path on the request line.
+func c08Forwarded(r *core.Run, tr *trio) {
+	a, err := app.New(app.Options{Service: app.SvcDecision, Mutate: func(c *config.Configuration) {
+		c.Prototypes.Finalizers = append(c.Prototypes.Finalizers, config.Mechanism{ID: "echo", Type: "header", Config: config.MechanismConfig{"headers": map[string]any{"X-Rule": "unset"}}})
+		c.Default = &config.DefaultRule{Execute: []config.MechanismConfig{{"authenticator": "anon"}, {"finalizer": "echo", "config": map[string]any{"headers": map[string]any{"X-Rule": "default"}}}}}
+		c.Serve.Decision.TrustedProxies = &[]string{"127.0.0.0/8"}
+	}})
+	if err != nil {
+		r.Inconclusive("cannot start the decision service with trusted proxies: " + err.Error())
+		return
+	}
+	defer a.Stop()
+	for _, rs := range c08Rules(tr.Up.HostPort()) {
+		if err := a.Proc.OnCreated(rs); err != nil {
+			r.Inconclusive("rule set rejected: " + err.Error())
+			return
+		}
+	}
+	rng := r.Stream("c08-forwarded")
+	var paths []string
+	for i, b := range c08BasePaths() {
+		if i%4 == 0 || strings.ContainsAny(b, "|{^<`") {
+			paths = append(paths, b)
+		}
+	}
+	for _, base := range paths {
+		last := strings.LastIndex(base, "/")
+		spellings := []string{base, respell(rng, base, 2)}
+		if seg := base[last+1:]; seg != "" && !strings.Contains(seg, "%") {
+			spellings = append(spellings, base[:last+1]+seg[:len(seg)/2]+"%2F"+seg[len(seg)/2:], base[:last+1]+"%2f"+seg)
+		}
+		for _, sp := range spellings {
+			direct := tr.c08Send("decision", sp)
+			res, err := app.RawDo(a.Addr(), "GET", "/", "svc.test", []app.Hdr{{Name: "X-Forwarded-Uri", Value: sp}}, nil)
+			if err != nil {
+				r.Count("transport_errors", 1)
+				continue
+			}
+			fwd := c08Obs{Status: res.Status, Positive: res.Status == 200, Rule: res.Header.Get("X-Rule")}
+			if c := res.Header.Get("X-Cap"); c != "" {
+				_ = json.Unmarshal([]byte(c), &fwd.Caps)
+			}
+			r.Case("fwd|"+sp, true)
+			r.Count("paths_handed_over_in_x_forwarded_uri", 1)
+			if !sameDecision(fwd, direct) {
+				r.Violation("forwarded-uri-answered-differently", fmt.Sprintf("path %q in X-Forwarded-Uri of a trusted peer: rule=%q caps=%v positive=%v status=%d; on the request line: rule=%q caps=%v positive=%v status=%d",
+					sp, fwd.Rule, fwd.Caps, fwd.Positive, fwd.Status, direct.Rule, direct.Caps, direct.Positive, direct.Status),
+					c08Case{"decision", base, sp, "", "same as for the path on the request line", fwd, direct})
+			}
 		}
 	}
 }
